@@ -123,6 +123,19 @@ def case_tile(spec):
                     probs.append("(lon=%.12g, lat=%.12g): tile at depth %d %s is not a child of the tile at depth %d %s" % (lon, lat, d, pos, d - 1, prev))
                     keys.add("not-nested")
             prev = pos
+        # the same point in the other coordinate system, in this same process (nothing remembered per point or per
+        # position may leak from one system into the other)
+        ocs = CS.ASTRONOMICAL if pl else CS.PLANETARY
+        to = toast.toast_tile_for_point(spec["D"], lat, lon, coordsys=ocs)
+        nl += 1
+        orc, _ = rt.tile_corners(tuple(int(v) for v in to.pos), not pl)
+        if float(rt.signed_edge_distances(orc, P).min()) < -1e-9:
+            probs.append("(lon=%.12g, lat=%.12g) depth %d in the other coordinate system (same process): returned tile %s does not contain the point" % (lon, lat, spec["D"], tuple(to.pos)))
+            keys.add("not-contained:" + ("astronomical" if pl else "planetary"))
+        tb = toast.toast_tile_for_point(spec["D"], lat, lon, coordsys=cs)
+        if tuple(tb.pos) != prev:
+            probs.append("(lon=%.12g, lat=%.12g): repeating the lookup after a lookup in the other coordinate system gives %s instead of %s" % (lon, lat, tuple(tb.pos), prev))
+            keys.add("not-repeatable")
         # periodicity at the deepest depth
         d = spec["D"]
         base = toast.toast_tile_for_point(d, lat, lon, coordsys=cs)
